@@ -8,6 +8,8 @@ list(s), list(reversed(s)), len(s), first, last, plus the operation's own result
      content is the mathematical set; single adds / `|=` keep first-insertion order; reversed is the
      exact reverse; len/in/first/last agree; `==` with duplicate-free ordered collections is list
      equality; iteration with removal of the visited element visits exactly the original elements.
+     two of a kind: other sets of the same class (built before / after / copied from the set under test) are unaffected by
+     its operations and do not affect it (signature other-set-changed).
   K  (correspondence): the same observables from lean/PyxModel/OSet.lean (abstract level) and, for
      add/discard/iter-rm sequences, lean/PyxModel/OSetPtr.lean (pointer level).
 """
@@ -22,7 +24,9 @@ RULE = ('exhaustive op sequences (quick: length 3, thorough: length 4) over a fi
         '400 thorough) with arbitrary arguments; on the pointer level (add / discard / iteration with removal / '
         'membership) exhaustive sequences of length 4 (quick) / 5 (thorough) and random long sequences of the same '
         'lengths; a case is non-trivial when the set reached >= 2 elements and a '
-        'removing operation hit a present element; distinct = distinct (class, level, op sequence)')
+        'removing operation hit a present element; distinct = distinct (class, level, op sequence); in every case three OTHER sets '
+        'of the same class live beside the set under test (one built from a list before it, an empty one built after it, a copy '
+        'taken half way) and are changed between the steps: neither side may see the other')
 EXHAUSTIVE = {'quick': True, 'thorough': True}
 ASSUMPTIONS = ['elements are hashable values compared by ==; the universe is small integers',
                'CPython 3.12 collections.abc.MutableSet mixins are modelled from their source, tied by correspondence']
@@ -102,7 +106,15 @@ def _first_last(s, cls):
 
 def run_impl(case):
     cls = getattr(_xtuml, case['cls'])
+    # two of a kind: other sets of the same class live beside `s` - one built (from an iterable) BEFORE it, one (empty) AFTER
+    # it, one copied from it half way; whatever happens to `s` must leave them alone, and what happens to them must leave `s`
+    # alone (state shared through the class, a default argument or a module-level sentinel would show here)
+    elder_src = [101, 100, 102]
+    elder = cls(elder_src)
+    elder_oracle = list(elder_src)
     s = cls()
+    younger = cls()
+    copy_of_s, copy_oracle = None, None
     oracle = []           # first-insertion order of the present elements
     obs = []
     fails = []
@@ -114,7 +126,43 @@ def run_impl(case):
     def fail(sig, what):
         fails.append({'sig': sig, 'what': what + ' after ops %s' % dumps([[Sym(o[0])] + o[1:] for o in case['ops'][:len(obs) + 1]])})
 
-    for op in case['ops']:
+    def bystanders(step, op):
+        nonlocal copy_of_s, copy_oracle, elder_oracle
+        for name, t, want in (('built before it', elder, elder_oracle), ('built after it', younger, []),
+                              ('copied from it earlier', copy_of_s, copy_oracle)):
+            if t is None:
+                continue
+            if list(t) != want or list(reversed(t)) != want[::-1] or len(t) != len(want) or \
+                    _first_last(t, case['cls']) != ((want[0], want[-1]) if want else (None, None)):
+                fail('other-set-changed', 'after %s on one set, ANOTHER set (%s) holds %r / reversed %r / len %d, it should hold %r'
+                     % (op, name, list(t), list(reversed(t)), len(t), want))
+                if t is elder:
+                    elder_oracle = list(t)
+                elif t is copy_of_s:
+                    copy_oracle = list(t)
+        if elder_src != [101, 100, 102]:
+            fail('argument-changed', 'the list a set was built from changed to %r' % (elder_src,))
+        # now the other way round: operations on the bystanders must not show in `s`
+        mine = (list(s), list(reversed(s)), len(s))
+        k = 100 + (step * 7) % 5
+        if step % 2:
+            elder.add(k)
+            if k not in elder_oracle:
+                elder_oracle.append(k)
+        else:
+            elder.discard(k)
+            elder_oracle = [e for e in elder_oracle if e != k]
+        if step == len(case['ops']) // 2:
+            copy_of_s = cls(s)
+            copy_oracle = list(mine[0])
+        elif copy_of_s is not None and step % 3 == 0:
+            copy_of_s.add(300 + step)
+            copy_oracle.append(300 + step)
+        if (list(s), list(reversed(s)), len(s)) != mine:
+            fail('other-set-changed', 'operations on OTHER sets (add / discard / copy construction) changed this set from %r to %r'
+                 % (mine[0], list(s)))
+
+    for step, op in enumerate(case['ops']):
         nm, args = op[0], op[1:]
         before = list(s)
         bset = set(before)
@@ -188,8 +236,7 @@ def run_impl(case):
             elif nm == 'ior':
                 o = mk_other()
                 s |= o
-                if hasattr(o, 'add'):
-                    o.add(78)      # the operand stays independent of `s`
+                (o.add if hasattr(o, 'add') else o.append)(78)      # the operand stays independent of `s`
                 expect = bset | set(args)
                 for k in args:
                     if k not in oracle:
@@ -197,24 +244,21 @@ def run_impl(case):
             elif nm == 'iand':
                 o = mk_other()
                 s &= o
-                if hasattr(o, 'add'):
-                    o.add(78)      # the operand stays independent of `s`
+                (o.add if hasattr(o, 'add') else o.append)(78)      # the operand stays independent of `s`
                 expect = bset & set(args)
                 oracle = [k for k in oracle if k in expect]
                 nontrivial |= (reached2 and expect != bset)
             elif nm == 'isub':
                 o = mk_other()
                 s -= o
-                if hasattr(o, 'add'):
-                    o.add(78)      # the operand stays independent of `s`
+                (o.add if hasattr(o, 'add') else o.append)(78)      # the operand stays independent of `s`
                 expect = bset - set(args)
                 oracle = [k for k in oracle if k in expect]
                 nontrivial |= (reached2 and expect != bset)
             elif nm == 'ixor':
                 o = mk_other()
                 s ^= o
-                if hasattr(o, 'add'):
-                    o.add(78)      # the operand stays independent of `s`
+                (o.add if hasattr(o, 'add') else o.append)(78)      # the operand stays independent of `s`
                 expect = bset ^ set(args)
                 order_known = False
             elif nm == 'isub-self':
@@ -304,6 +348,7 @@ def run_impl(case):
             fail('first-last', 'first/last give %r for %r' % (fl, items))
         if len(items) >= 2:
             reached2 = True
+        bystanders(step, op)
         # the same observables on both levels (the pointer level reads first / last / len / membership off the pointers)
         obs.append([res, items, rev, len(s), fl[0] if fl[0] is not None else Sym('none'),
                     fl[1] if fl[1] is not None else Sym('none')])
